@@ -37,9 +37,11 @@ def run_cases(chk, binr, seq, conc, pf_ok, pf):
     for c, problems in bad[:3]:
         chk.violation("a pattern use did not behave like Go's regexp compiled from that very pattern (or the cache holds a wrong entry)",
                       {"case": c, "problems": problems})
+    for f in K.FATAL[:2]:
+        chk.violation("concurrent pattern use took the process down (%s)" % f["message"], {"case": f["case"], "fatal": f["message"]})
     for rep in races[:2]:
         chk.violation("data race reported by the race detector during concurrent pattern use", {"race_report": rep, "cases": "rexp concurrent stream"})
-    if not pf_ok and not bad and not races:
+    if not pf_ok and not bad and not races and not K.FATAL:
         chk.violation("proof obligations of C15 no longer check", {"theorem_or_correspondence": pf["failed"]}, no_input=True)
     chk.coverage.update({
         "obligations": pf["obligations"], "discharged": pf["discharged"], "theorems": pf["theorems"],
